@@ -646,7 +646,7 @@ def _panic_site_audit(ctx, RID, D, TABLE, what, floor_bodies, floor_sites):
         if b.is_promoted or not b.nid.startswith(D):
             continue
         scanned += 1
-        fn = b.nroot[len(D):]
+        fn = b.nroot[len(D):] or D.rstrip(':').split('::')[-1]
         for bb, t in b.calls():
             c = callee(t) or ''
             if (t.get('mo') or '') in ('debug_assert', 'debug_assert_eq', 'debug_assert_ne'):
@@ -1172,7 +1172,22 @@ def r16_config_keys_are_validated_by_the_parser_that_unwraps_them(ctx):
     ctx.floor('C09.R16', 'constructions of ConfigKey in ConfigKey::new', n, 1)
 
 
+REVIEWED_CALL_GRAPH_INVARIANT_PANIC_SITES = {
+    ('enforce_invariants', 'assert:Overflow'): (1, '`n_errors * n_unique_error_observers`: two node counts of one graph'),
+    # ('enforce_invariants', 'panic') is NOT reviewed away: it is finding 34 (known_findings.json)
+}
+
+
+def r17_call_graph_invariants_are_not_user_reachable_panics(ctx):
+    ctx.rule('C09.R17', 'P3 audit with a reviewed table (the form of C09.R7): `core_graph::enforce_invariants` runs on every call graph `build_call_graph` produces, '
+             'i.e. on a shape the user\'s blueprint decides. Each of its assertions is either argued to hold for every accepted blueprint, or it is a way to '
+             'make pavexc crash on a valid application.')
+    _panic_site_audit(ctx, 'C09.R17', 'pavexc::compiler::analyses::call_graph::core_graph::enforce_invariants', REVIEWED_CALL_GRAPH_INVARIANT_PANIC_SITES,
+                      'call-graph-invariant', 1, 1)
+
+
 def check(ctx):
+    r17_call_graph_invariants_are_not_user_reachable_panics(ctx)
     r16_config_keys_are_validated_by_the_parser_that_unwraps_them(ctx)
     r15_import_resolution_does_not_panic(ctx)
     r14_cycle_detection_does_not_panic(ctx)
